@@ -9,6 +9,25 @@ def openMachine (args : List String) (hin hout : IO.FS.Stream) : Option (IO Bool
       | some (c, []) => some (serve (numBank c) hin hout)
       | _ => none
     | none => none
+  | "sram" :: ps =>
+    match parseNats ps with
+    | some ns => match parseSram ns with
+      | some (c, []) => some (serve (numSram c) hin hout)
+      | _ => none
+    | none => none
+  | "array" :: ps =>
+    match parseNats ps with
+    | some (nm :: ns) => match parseArray ns with
+      | some c => some (serve (numArray nm c) hin hout)
+      | none => none
+    | _ => none
   | _ => none
 
-def main : IO Unit := mainLoop openMachine (fun _ => none)
+def call (args : List String) : Option String :=
+  match args with
+  | "sort" :: ps => (parseNats ps).map callSort
+  | "fields" :: ps => (parseNats ps).map callFields
+  | "layout" :: ps => (parseNats ps).map callLayout
+  | _ => none
+
+def main : IO Unit := mainLoop openMachine call
